@@ -29,6 +29,17 @@ def spec_width(fam: str, s: bool, m: int, n: int) -> int:
     return 4 if fam == "float4" else 8
 
 
+_OTHER: list[Any] = []
+
+
+def _other_layout() -> Any:
+    if not _OTHER:
+        from stingray.cobol_parser import schema_iter
+        from stingray.schema_instance import SchemaMaker
+        _OTHER.append(SchemaMaker.from_json(next(iter(schema_iter(io.StringIO("       01  HDR.\n           05  H-TYPE PIC X(1).\n           05  H-N PIC 9(22).\n"))))))
+    return _OTHER[0]
+
+
 def sites(usage: str, pic: str) -> dict[str, str]:
     """Every place the width of `05 F PIC pic USAGE usage` is visible."""
     from stingray.cobol_parser import schema_iter
@@ -50,6 +61,13 @@ def sites(usage: str, pic: str) -> dict[str, str]:
         wb = COBOL_EBCDIC_File("x.data", file_object=io.BytesIO(b""))
         sheet = wb.sheet("").set_schema(schema)
         out["lrecl"] = str(sheet.lrecl)  # type: ignore[attr-defined]
+        # the same file described by two layouts one after the other (header / detail): the length is that of the layout bound NOW
+        wb2 = COBOL_EBCDIC_File("x.data", file_object=io.BytesIO(b""))
+        sheet2 = wb2.sheet("")
+        sheet2.set_schema(_other_layout())
+        sheet2.set_schema(schema)
+        out["lrecl-rebound"] = str(sheet2.lrecl)  # type: ignore[attr-defined]
+        out["lrecl-second-sheet"] = str(wb2.sheet("").set_schema(schema).lrecl)  # type: ignore[attr-defined]
         atomic = schema.properties["F"]  # type: ignore[attr-defined]
         out["EBCDIC"] = str(EBCDIC().calcsize(atomic))
     except BaseException as ex:  # noqa: BLE001
@@ -195,7 +213,7 @@ def explore(ck: Check, full_sites: bool) -> None:
             ck.fail(binary_sig if (binary_sig and binary_sig.startswith("binary-width:S")) else f"{fam}-width",
                     f"USAGE {u} PIC {pic} is laid out in {st['calcsize']} bytes; the storage rule says {want}", inp)
         # oracle 2: every site reports the same number
-        same = {k: v for k, v in st.items() if k in ("maxLength", "minLength", "location", "record", "lrecl", "EBCDIC")}
+        same = {k: v for k, v in st.items() if k in ("maxLength", "minLength", "location", "record", "lrecl", "lrecl-rebound", "lrecl-second-sheet", "EBCDIC")}
         bad = {k: v for k, v in same.items() if v != st["calcsize"]}
         if "schema" in st:
             ck.fail(f"{fam}-schema", f"USAGE {u} PIC {pic}: schema cannot be built/loaded: {st['schema']}", inp)
